@@ -202,6 +202,10 @@ def gen_case(seed, cfg):
                                                {'MIPGap': 0.5, 'NodeLimit': 0}])
                     ev['display'] = rng.random() < 0.3
                     ev['log'] = rng.random() < 0.3
+                elif sv in ('def', 'lpg', 'ort', 'eco') and rng.random() < 0.3:
+                    # engine parameters belong to the call they are passed to (whatever the interface does with them)
+                    ev['params'] = rng.choice([{'maxiter': 1}, {'presolve': False}, {'time_limit': 0.0}, {'disp': False},
+                                               {'max_iters': 1}, {'feastol': 1e-1}])
                 elif rng.random() < 0.25:
                     ev['fault'] = dict(rng.choice([f for f in FAULTS_BY_ENGINE[sv] if f['kind'] in ('status', 'raise')]))
                     state[j]['failed'] = ev['fault']['kind'] == 'status'
